@@ -160,6 +160,8 @@ def run(ctx):
     glue.bytes_dirfd_hidden(ctx)
     glue.list_is_union(ctx)
     glue.root_through_link(ctx)
+    from props import clauses
+    clauses.bytes_high_and_nonascii_dirs(ctx)
     return ctx.finish(RULE)
 
 
